@@ -1,6 +1,7 @@
 package main
 
 import (
+	"github.com/openfga/language/pkg/go/graph"
 	"runtime"
 	"sync"
 )
@@ -24,4 +25,15 @@ func parallelFor(n int, f func(i int)) {
 	}
 	close(ch)
 	wg.Wait()
+}
+
+// sharedWBuilder, when set (C13's race regime), is the one builder instance every goroutine uses: a
+// builder must be safe to share, Build must not keep state between or across calls.
+var sharedWBuilder *graph.WeightedAuthorizationModelGraphBuilder
+
+func wBuilder() *graph.WeightedAuthorizationModelGraphBuilder {
+	if sharedWBuilder != nil {
+		return sharedWBuilder
+	}
+	return graph.NewWeightedAuthorizationModelGraphBuilder()
 }
